@@ -19,6 +19,7 @@ type C04Params struct {
 	Ops    []MWOp   `json:"ops,omitempty"`
 	Cutoff int64    `json:"cutoff,omitempty"` // vacuum: ns after T0
 	Pre    string   `json:"pre,omitempty"`    // "refresh": victim refreshes before the transaction
+	Tie    int      `json:"tie,omitempty"`    // txn: the victim first commits this many rows at one pinned write time and then, inside the transaction, overwrites them at the same write time
 }
 
 func init() {
@@ -50,6 +51,13 @@ func init() {
 			if r.IntN(3) == 0 {
 				p.Pre = "refresh"
 			}
+			if r.IntN(3) == 0 {
+				// a connection that keeps one explicit write time over two transactions: the interrupted
+				// one overwrites values of the committed one with every time tied. Whatever a recovery
+				// open finds listed (the version and its parent together, after a crash between the
+				// version PUT and the retire step), the successor's values are the table's.
+				p.Tie = 1 + r.IntN(3)
+			}
 		case "vacuum":
 			p.Cutoff = []int64{0, 1e9, 5e9, 50e9, 4000e9, 1e15}[r.IntN(6)]
 			if r.IntN(2) == 0 {
@@ -62,7 +70,7 @@ func init() {
 
 func runC04(x *Exec) {
 	var p C04Params
-	if !x.Params(&p) || !p.MW.Valid() || len(p.Ops) > 12 {
+	if !x.Params(&p) || !p.MW.Valid() || len(p.Ops) > 12 || p.Tie < 0 || p.Tie > 4 || (p.Tie > 0 && p.Kind != "txn") {
 		x.Invalid()
 		return
 	}
@@ -130,6 +138,26 @@ func runC04(x *Exec) {
 			})
 			return rows, err
 		}
+		tieWT := int64(99 * time.Second) // later than every prefix statement, earlier than every other victim statement
+		if p.Tie > 0 {
+			var terr error
+			victim := writers[0]
+			w.Solo(victim, func() {
+				t := m.Tables[victim.Name]
+				if _, terr = victim.Query("select s3db_refresh(?)", t); terr != nil {
+					return
+				}
+				victim.SetWriteTime(tieWT)
+				for j := 0; j < p.Tie && terr == nil; j++ {
+					_, terr = victim.Exec(fmt.Sprintf("insert into %s(k,%s) values (?,?)", t, mp.Cols[0]), 1000+7*j, 7000+j)
+				}
+			})
+			if terr != nil {
+				x.Fail("C04-unexpected-error", "tie setup: %v", terr)
+				return
+			}
+			x.Probe("victim-overwrites-at-tied-write-time")
+		}
 		rowsBefore, err := readRO("before")
 		if err != nil {
 			x.Fail("C04-unexpected-error", "before victim: %v", err)
@@ -163,6 +191,14 @@ func runC04(x *Exec) {
 				}
 				if _, verr = victim.Exec("BEGIN"); verr != nil {
 					return
+				}
+				if p.Tie > 0 {
+					victim.SetWriteTime(tieWT)
+					for j := 0; j < p.Tie; j++ {
+						if _, verr = victim.Exec(fmt.Sprintf("update %s set %s=? where k=?", t, mp.Cols[0]), 8000+j, 1000+7*j); verr != nil {
+							return
+						}
+					}
 				}
 				for _, op := range p.Ops {
 					victim.SetWriteTime(op.WT)
